@@ -1,9 +1,13 @@
 (* props/C16.v -- Property C16: uncertain arrays are the element-wise lifting of scalar
-   operations.  Statements about the model of GTC/uncertain_array.py in Array.v, for EVERY
-   element type E, every table of scalar operations (which may raise), every shape, rank and
-   history; closed by lemmas of ArrayFacts.v.  Where the full statement is false of the
-   faithful model a `_refuted` witness is proved (and replayed on the implementation by the
-   harness) together with the strongest restriction that is true. *)
+   operations.  Statements about the model of GTC/uncertain_array.py in Array.v -- the code as
+   repaired by the fixes C16-stale-broadcast-shape, C16-arctan2-uarray-second,
+   C16-arctan2-broadcast and C16-pickle-attributes -- for EVERY element type E, every table of
+   scalar operations (which may raise), every shape, rank and history; closed by lemmas of
+   ArrayFacts.v.  The theorems that those defects were blocking (full history independence,
+   views with the operand's own shape after any history, the arctan2 lifting for both operand
+   orders and under broadcasting, the pickle round trip) are now proved outright.  One
+   `_refuted` statement remains (sensitivity / u_component / core.atan2 do not broadcast), with
+   its witness replayed on the implementation and the true restriction C16_zip_on. *)
 From Coq Require Import ZArith List Bool Arith Lia.
 From GTCV Require Import Num Array ArrayFacts.
 Import ListNotations.
@@ -37,15 +41,14 @@ Proof.
   - apply bcast_list_length; assumption.
 Qed.
 
-(* (2) THE LIFTING, binary ufuncs (arithmetic, power, maximum/minimum, logical and/or,
-   comparisons): for operands of any shapes that broadcast, array-array and scalar-array, whichever
-   input dispatches, after ANY history: the result has the broadcast shape and its element at
-   every index is exactly the scalar result for the broadcast operand elements; if a scalar
-   operation raises, the array operation raises that exception. *)
+(* (2) THE LIFTING, every binary ufunc (arithmetic, power, np.arctan2, maximum/minimum, logical
+   and/or, comparisons): for operands of any shapes that broadcast, array-array and scalar-array,
+   whichever input dispatches, after ANY history: the result has the broadcast shape and its
+   element at every index is exactly the scalar result for the broadcast operand elements; if a
+   scalar operation raises, the array operation raises that exception. *)
 Theorem C16_lift :
   forall (history : list (op E)) bk f x y self s0 c0 s1 c1 r,
     let h := fst (run [] history) in
-    bk <> BAtan2 ->
     dispatcher E h x y = Some self ->
     input E h x y = Some (s0, c0) -> input E h y x = Some (s1, c1) ->
     bshape s0 s1 = Some r ->
@@ -59,9 +62,36 @@ Theorem C16_lift :
     | XLbl _ => False
     end.
 Proof.
-  intros history bk f x y self s0 c0 s1 c1 r h Hbk D I0 I1 B.
-  apply (bin_lift E none bin h bk f x y self s0 c0 s1 c1 r Hbk); auto.
+  intros history bk f x y self s0 c0 s1 c1 r h D I0 I1 B.
+  apply (bin_lift E none bin h bk f x y self s0 c0 s1 c1 r); auto.
   apply run_wf. constructor.
+Qed.
+
+(* (2') what the arctan2 defects were blocking, spelled out: np.arctan2(x, y) is the lifting of the
+   scalar atan2 (opcode f) with the FIRST input as ordinate and the SECOND as abscissa whether the
+   dispatching UncertainArray is x or y (the other may be an ndarray, a list or a scalar), and for
+   shapes that need broadcasting it returns the broadcast array instead of raising *)
+Theorem C16_arctan2_lift :
+  forall (history : list (op E)) f x y s0 c0 s1 c1 r,
+    let h := fst (run [] history) in
+    (is_ku E h x <> None \/ is_ku E h y <> None) ->
+    input E h x y = Some (s0, c0) -> input E h y x = Some (s1, c1) ->
+    bshape s0 s1 = Some r ->
+    match snd (step h (OBin BGen f x y)) with
+    | XArr k s cells =>
+        k = KU /\ s = r /\ length cells = size r /\
+        forall idx, valid r idx ->
+          bin f (nth (src s0 r idx) c0 none) (nth (src s1 r idx) c1 none) = Ok (nth (flat r idx) cells none)
+    | XExn e => exists idx, valid r idx /\
+          bin f (nth (src s0 r idx) c0 none) (nth (src s1 r idx) c1 none) = Err e
+    | XLbl _ => False
+    end.
+Proof.
+  intros history f x y s0 c0 s1 c1 r h K I0 I1 B.
+  assert (exists self, dispatcher E h x y = Some self) as [self D].
+  { unfold dispatcher. destruct (is_ku E h x) as [i|]; [eauto|]. destruct (is_ku E h y) as [j|]; [eauto|].
+    destruct K as [K|K]; congruence. }
+  exact (C16_lift history BGen f x y self s0 c0 s1 c1 r D I0 I1 B).
 Qed.
 
 Theorem C16_lift_incompatible :
@@ -71,17 +101,29 @@ Theorem C16_lift_incompatible :
     step h (OBin bk f x y) = (upd E h self (fun a => set_bs E a BNone), XExn ValueError).
 Proof. intros. simpl. eapply bin_incompatible; eauto. Qed.
 
-(* every heap any history can reach is well formed (cells = product of the shape) *)
+(* every heap any history can reach is well formed (cells = product of the shape) ... *)
 Theorem C16_reachable_wf : forall history : list (op E), wf_heap E (fst (run [] history)).
 Proof. intro p. apply run_wf. constructor. Qed.
 
-(* (3) unary ufuncs, core functions, attribute views x u v df r real imag, result(array), copy():
-   element-wise with the operand's OWN shape -- on objects whose remembered broadcast shape is
-   None (the restriction under which history independence holds) *)
-Theorem C16_unary_views_on :
+(* (3) ... and in it NO object holds a remembered broadcast shape: broadcasting binary ufuncs,
+   operations that raise half way, unpickling -- after every operation `_broadcasted_shape` is
+   None on every object.  (This is what the stale-shape defect violated.) *)
+Theorem C16_no_remembered_shape :
+  forall (history : list (op E)) i a,
+    nth_error (fst (run [] history)) i = Some a -> a_bs E a = BNone.
+Proof.
+  intros history i a N.
+  assert (C : all_clean E (fst (run [] history))) by (apply clean_run; constructor).
+  eapply Forall_forall in C; [exact C|]. eapply nth_error_In. exact N.
+Qed.
+
+(* (4) unary ufuncs, core functions, attribute views x u v df r real imag, result(array), copy():
+   element-wise with the operand's OWN shape -- after ANY history, whatever was done with the same
+   array object before (no restriction left) *)
+Theorem C16_unary_views :
   forall (history : list (op E)) f i a,
     let h := fst (run [] history) in
-    get_ku E h i = Some a -> a_bs E a = BNone ->
+    get_ku E h i = Some a ->
     match snd (step h (OUn f i)) with
     | XArr k s cells => k = KU /\ s = a_shape E a /\ length cells = size s /\
         forall idx, valid s idx -> un f (nth (flat s idx) (a_cells E a) none) = Ok (nth (flat s idx) cells none)
@@ -89,14 +131,33 @@ Theorem C16_unary_views_on :
     | XLbl _ => False
     end.
 Proof.
-  intros history f i a h G Hb. simpl.
-  apply (un_clean E none un h KU f i (fun _ => Ok none) a none); auto. apply run_wf. constructor.
+  intros history f i a h G. simpl.
+  apply (un_clean E none un h KU f i (fun _ => Ok none) a none); auto.
+  - apply run_wf. constructor.
+  - destruct (get_ku_nth E h i a G) as [N _]. exact (C16_no_remembered_shape history i a N).
 Qed.
 
-Theorem C16_copy_on :
+Theorem C16_bool_views :
+  forall (history : list (op E)) f i a,
+    let h := fst (run [] history) in
+    get_ku E h i = Some a ->
+    match snd (step h (OUnB f i)) with
+    | XArr k s cells => k = KN /\ s = a_shape E a /\ length cells = size s /\
+        forall idx, valid s idx -> un f (nth (flat s idx) (a_cells E a) none) = Ok (nth (flat s idx) cells none)
+    | XExn e => exists idx, valid (a_shape E a) idx /\ un f (nth (flat (a_shape E a) idx) (a_cells E a) none) = Err e
+    | XLbl _ => False
+    end.
+Proof.
+  intros history f i a h G. simpl.
+  apply (un_clean E none un h KN f i (fun _ => Ok none) a none); auto.
+  - apply run_wf. constructor.
+  - destruct (get_ku_nth E h i a G) as [N _]. exact (C16_no_remembered_shape history i a N).
+Qed.
+
+Theorem C16_copy :
   forall (history : list (op E)) i a,
     let h := fst (run [] history) in
-    get_ku E h i = Some a -> a_bs E a = BNone -> a_pickled E a = false ->
+    get_ku E h i = Some a ->
     match snd (step h (OCopy i)) with
     | XArr k s cells => k = KU /\ s = a_shape E a /\ length cells = size s /\
         forall idx, valid s idx -> un F_POS (nth (flat s idx) (a_cells E a) none) = Ok (nth (flat s idx) cells none)
@@ -104,16 +165,16 @@ Theorem C16_copy_on :
     | XLbl _ => False
     end.
 Proof.
-  intros history i a h G Hb Hp. simpl.
+  intros history i a h G. simpl.
   apply (un_clean E none un h KU F_POS i (label_of E) a (a_label E a)); auto.
   - apply run_wf. constructor.
-  - unfold label_of. rewrite Hp. reflexivity.
+  - destruct (get_ku_nth E h i a G) as [N _]. exact (C16_no_remembered_shape history i a N).
 Qed.
 
-Theorem C16_result_on :
+Theorem C16_result :
   forall (history : list (op E)) i a,
     let h := fst (run [] history) in
-    get_ku E h i = Some a -> a_bs E a = BNone ->
+    get_ku E h i = Some a ->
     match snd (step h (OResult i LNone)) with
     | XArr k s cells => k = KU /\ s = a_shape E a /\ length cells = size s /\
         forall idx, valid s idx -> un F_RES1 (nth (flat s idx) (a_cells E a) none) = Ok (nth (flat s idx) cells none)
@@ -121,15 +182,17 @@ Theorem C16_result_on :
     | XLbl _ => False
     end.
 Proof.
-  intros history i a h G Hb. simpl.
-  apply (un_clean E none un h KU F_RES1 i (fun _ => Ok none) a none); auto. apply run_wf. constructor.
+  intros history i a h G. simpl.
+  apply (un_clean E none un h KU F_RES1 i (fun _ => Ok none) a none); auto.
+  - apply run_wf. constructor.
+  - destruct (get_ku_nth E h i a G) as [N _]. exact (C16_no_remembered_shape history i a N).
 Qed.
 
-(* sensitivity / u_component / core.atan2 between arrays of the same shape *)
+(* sensitivity / u_component / core.atan2 between arrays of the same shape, after any history *)
 Theorem C16_zip_on :
   forall (history : list (op E)) f i j a b,
     let h := fst (run [] history) in
-    get_ku E h i = Some a -> a_bs E a = BNone -> nth_error h j = Some b -> a_shape E b = a_shape E a ->
+    get_ku E h i = Some a -> nth_error h j = Some b -> a_shape E b = a_shape E a ->
     match snd (step h (OZip f i (OA j))) with
     | XArr k s cells => k = KU /\ s = a_shape E a /\ length cells = size s /\
         forall idx, valid s idx ->
@@ -139,104 +202,58 @@ Theorem C16_zip_on :
     | XLbl _ => False
     end.
 Proof.
-  intros history f i j a b h G Hb N Hs. simpl.
-  apply (zip_clean E none bin h f i j a b); auto. apply run_wf. constructor.
+  intros history f i j a b h G N Hs. simpl.
+  apply (zip_clean E none bin h f i j a b); auto.
+  - apply run_wf. constructor.
+  - destruct (get_ku_nth E h i a G) as [Na _]. exact (C16_no_remembered_shape history i a Na).
 Qed.
 
-(* (4) which objects hold a remembered shape: after a binary ufunc the dispatching operand holds
-   None if the two shapes were equal and the broadcast shape otherwise -- and keeps it *)
-Theorem C16_remembered_shape :
-  forall (h : heap E) bk f x y self s0 c0 s1 c1 r a,
-    dispatcher E h x y = Some self ->
-    input E h x y = Some (s0, c0) -> input E h y x = Some (s1, c1) -> bshape s0 s1 = Some r ->
-    nth_error h self = Some a ->
-    nth_error (fst (step h (OBin bk f x y))) self = Some (set_bs E a (if shape_eqb s0 s1 then BNone else BSome r)).
-Proof. intros. simpl. eapply bin_remembers; eauto. Qed.
+(* (5) HISTORY INDEPENDENCE, unrestricted: two histories -- any sequences of operations, on the same
+   array objects or not, with broadcasting, failures, pickling -- that lead to objects with the same
+   kinds, shapes, contents and labels give the same outcome (result array or exception, AND successor
+   heap) for EVERY operation: binary, unary, view, copy, result, sensitivity, label.  The outcome
+   depends only on the operands' contents and shapes. *)
+Theorem C16_history_independent :
+  forall (p1 p2 : list (op E)) (o : op E),
+    heap_ceq E (fst (run [] p1)) (fst (run [] p2)) ->
+    step (fst (run [] p1)) o = step (fst (run [] p2)) o.
+Proof.
+  intros p1 p2 o H.
+  rewrite (ceq_clean_eq E _ _ H); [reflexivity| |]; apply clean_run; constructor.
+Qed.
 
-(* (4') the restricted history-independence theorem: after ANY history in which no binary ufunc had
-   operands of different shapes and nothing was unpickled, no object remembers a shape -- so by (3)
-   every unary ufunc, core function, view, copy, result and same-shape sensitivity is the lifting
-   with the operand's own shape, whatever was done to the same objects before *)
-Theorem C16_history_independent_on :
-  forall (history : list (op E)) f i a,
-    hist_no_bcast E none un bin ilabel [] history ->
+(* (6) a pickle round trip yields an object with the same shape and contents (the label is not
+   carried) on which every unary ufunc / core function / view gives what it gives on the original *)
+Theorem C16_pickle_roundtrip :
+  forall (history : list (op E)) i a f,
     let h := fst (run [] history) in
     get_ku E h i = Some a ->
-    a_bs E a = BNone /\
-    match snd (step h (OUn f i)) with
-    | XArr k s cells => k = KU /\ s = a_shape E a /\ length cells = size s /\
-        forall idx, valid s idx -> un f (nth (flat s idx) (a_cells E a) none) = Ok (nth (flat s idx) cells none)
-    | XExn e => exists idx, valid (a_shape E a) idx /\ un f (nth (flat (a_shape E a) idx) (a_cells E a) none) = Err e
-    | XLbl _ => False
-    end.
+    fst (step h (OPickle i)) = h ++ [fresh E KU (a_shape E a) (a_cells E a) none] /\
+    snd (step (fst (step h (OPickle i))) (OUn f (length h))) = snd (step h (OUn f i)) /\
+    snd (step (fst (step h (OPickle i))) (OLabel (length h))) = XLbl none.
 Proof.
-  intros history f i a Hn h G.
-  assert (C : all_clean E h) by (apply clean_run; [constructor|exact Hn]).
-  assert (Hb : a_bs E a = BNone).
-  { destruct (get_ku_nth E h i a G) as [N _]. eapply Forall_forall in C; [exact C|]. eapply nth_error_In. exact N. }
-  split; [exact Hb|]. apply C16_unary_views_on; assumption.
-Qed.
-
-(* (5) the defect in general: a unary operation / view on an object holding a remembered shape r
-   returns an array of shape r whose first cells are the scalar results in flat order, the rest None *)
-Theorem C16_stale_shape :
-  forall (h : heap E) f i a r,
-    get_ku E h i = Some a -> a_bs E a = BSome r -> length (a_cells E a) <= size r ->
-    (forall j, j < length (a_cells E a) -> exists v, un f (nth j (a_cells E a) none) = Ok v) ->
-    exists cells, snd (step h (OUn f i)) = XArr KU r cells /\ length cells = size r /\
-      (forall j, j < length (a_cells E a) -> un f (nth j (a_cells E a) none) = Ok (nth j cells none)) /\
-      (forall j, length (a_cells E a) <= j -> nth j cells none = none).
-Proof. intros. simpl. eapply un_stale; eauto. Qed.
-
-(* (6) history independence holds for ALL binary ufuncs (np.arctan2 included): two histories that
-   lead to objects with the same contents, shapes, kinds and labels give the same result *)
-Theorem C16_history_independent_binary :
-  forall (p1 p2 : list (op E)) bk f x y,
-    heap_ceq E (fst (run [] p1)) (fst (run [] p2)) ->
-    snd (step (fst (run [] p1)) (OBin bk f x y)) = snd (step (fst (run [] p2)) (OBin bk f x y)) /\
-    heap_ceq E (fst (step (fst (run [] p1)) (OBin bk f x y))) (fst (step (fst (run [] p2)) (OBin bk f x y))).
-Proof. intros. simpl. apply bin_history_independent. assumption. Qed.
-
-(* (7) np.arctan2: three behaviours *)
-Theorem C16_arctan2_broadcast_raises :
-  forall (h : heap E) f x y self s0 c0 s1 c1 r,
-    dispatcher E h x y = Some self ->
-    input E h x y = Some (s0, c0) -> input E h y x = Some (s1, c1) -> s0 <> s1 -> bshape s0 s1 = Some r ->
-    step h (OBin BAtan2 f x y) = (upd E h self (fun a => set_bs E a (BSome r)), XExn AttributeError).
-Proof. intros. simpl. eapply arctan2_broadcast_raises; eauto. Qed.
-
-Theorem C16_arctan2_same_shape :
-  forall (history : list (op E)) f x y self me s c0 c1,
-    let h := fst (run [] history) in
-    dispatcher E h x y = Some self -> nth_error h self = Some me ->
-    input E h x y = Some (s, c0) -> input E h y x = Some (s, c1) ->
-    match snd (step h (OBin BAtan2 f x y)) with
-    | XArr k s' cells => k = KU /\ s' = s /\ length cells = size s /\
-        forall j, j < size s -> bin f (nth j (a_cells E me) none) (nth j c1 none) = Ok (nth j cells none)
-    | XExn e => exists j, j < size s /\ bin f (nth j (a_cells E me) none) (nth j c1 none) = Err e
-    | XLbl _ => False
-    end.
-Proof.
-  intros history f x y self me s c0 c1 h D N I0 I1. simpl.
-  apply (arctan2_same_shape E none bin h f x y self me s c0 c1); auto. apply run_wf. constructor.
+  intros history i a f h G.
+  assert (C : all_clean E h) by (apply clean_run; constructor).
+  destruct (pickle_roundtrip E none un bin ilabel h i a f KU C G) as [P1 P2].
+  split; [exact P1|]. split; [exact P2|].
+  rewrite P1. simpl. unfold get_ku. rewrite nth_error_app2 by lia. rewrite Nat.sub_diag. reflexivity.
 Qed.
 
 End C16.
 
 Print Assumptions C16_broadcast_index.
 Print Assumptions C16_lift.
+Print Assumptions C16_arctan2_lift.
 Print Assumptions C16_lift_incompatible.
 Print Assumptions C16_reachable_wf.
-Print Assumptions C16_unary_views_on.
-Print Assumptions C16_copy_on.
-Print Assumptions C16_result_on.
+Print Assumptions C16_no_remembered_shape.
+Print Assumptions C16_unary_views.
+Print Assumptions C16_bool_views.
+Print Assumptions C16_copy.
+Print Assumptions C16_result.
 Print Assumptions C16_zip_on.
-Print Assumptions C16_remembered_shape.
-Print Assumptions C16_history_independent_on.
-Print Assumptions C16_stale_shape.
-Print Assumptions C16_history_independent_binary.
-Print Assumptions C16_arctan2_broadcast_raises.
-Print Assumptions C16_arctan2_same_shape.
+Print Assumptions C16_history_independent.
+Print Assumptions C16_pickle_roundtrip.
 
 (* ------------------------------------------------------------------ a concrete instance: witnesses and non-vacuity *)
 Definition wun (f e : Z) : res Z := if Z.eqb e 0 then Err TypeError else Ok (f * 1000 + e)%Z.
@@ -245,11 +262,10 @@ Definition wlbl (e : Z) (i : nat) : Z := (e + Z.of_nat i)%Z.
 Definition wstep := step Z 0%Z wun wbin wlbl.
 Definition wrun := run Z 0%Z wun wbin wlbl.
 
-(* a(3,1) + b(3,) *)
+(* a(3,1) + b(3,) : a dispatches a broadcasting operation *)
 Definition hist1 : list (op Z) :=
   [ONew KU [3; 1] [1; 2; 3]%Z 0%Z; ONew KU [3] [4; 5; 6]%Z 0%Z; OBin BGen 50%Z (OA 0) (OA 1)].
-(* the same objects, but b dispatched:  b(3,) + a(3,1), then element order restored by wbin's asymmetry is
-   irrelevant: we compare with a history whose third object has the same contents *)
+(* the same three objects created directly: no operation was ever applied to a *)
 Definition hist2 : list (op Z) :=
   [ONew KU [3; 1] [1; 2; 3]%Z 0%Z; ONew KU [3] [4; 5; 6]%Z 0%Z;
    ONew KU [3; 3] [104; 105; 106; 204; 205; 206; 304; 305; 306]%Z 0%Z].
@@ -262,72 +278,44 @@ Example C16_lift_example :
   /\ snd (wstep (fst (wrun [] hist1)) (OBin BCmp 62%Z (OS 7%Z) (OA 1))) = XArr KN [3] [704; 705; 706]%Z.
 Proof. vm_compute. repeat split; reflexivity. Qed.
 
-(* THE FULL HISTORY-INDEPENDENCE STATEMENT IS FALSE of the faithful model: two histories lead to
-   heaps with the same contents, shapes, kinds and labels, yet the view a.x (and every unary
-   operation, copy, result) of object 0 differs: after a(3,1)+b(3,) it has shape (3,3) with six None *)
-Theorem C16_history_independent_refuted :
-  exists (p1 p2 : list (op Z)) (f : Z) (i : nat),
-    heap_ceq Z (fst (wrun [] p1)) (fst (wrun [] p2)) /\
-    snd (wstep (fst (wrun [] p1)) (OUn f i)) = XArr KU [3; 3] [33001; 33002; 33003; 0; 0; 0; 0; 0; 0]%Z /\
-    snd (wstep (fst (wrun [] p2)) (OUn f i)) = XArr KU [3; 1] [33001; 33002; 33003]%Z.
+(* non-vacuity of (5), on the very witness that refuted it before the repair: the two histories reach
+   content-equal heaps, and the view of object 0 -- which dispatched the broadcasting a(3,1)+b(3,) in
+   hist1 and nothing in hist2 -- has the operand's own shape (3,1) in both (it was (3,3) with six None) *)
+Example C16_history_independent_example :
+  heap_ceq Z (fst (wrun [] hist1)) (fst (wrun [] hist2)) /\
+  snd (wstep (fst (wrun [] hist1)) (OUn 33%Z 0)) = XArr KU [3; 1] [33001; 33002; 33003]%Z /\
+  snd (wstep (fst (wrun [] hist2)) (OUn 33%Z 0)) = XArr KU [3; 1] [33001; 33002; 33003]%Z /\
+  snd (wstep (fst (wrun [] hist1)) (OCopy 0)) = XArr KU [3; 1] [1001; 1002; 1003]%Z /\
+  snd (wstep (fst (wrun [] hist1)) (OZip 71%Z 1 (OA 1))) = XArr KU [3] [404; 505; 606]%Z.
 Proof.
-  exists hist1, hist2, 33%Z, 0. split; [|split]; [|vm_compute; reflexivity|vm_compute; reflexivity].
-  vm_compute. repeat constructor.
-Qed.
-Print Assumptions C16_history_independent_refuted.
-
-(* non-vacuity of (3) and (5): object 1 of hist1 is clean, object 0 holds (3,3) *)
-Example C16_on_example :
-  (exists a, get_ku Z (fst (wrun [] hist1)) 1 = Some a /\ a_bs Z a = BNone /\ a_pickled Z a = false) /\
-  (exists a, get_ku Z (fst (wrun [] hist1)) 0 = Some a /\ a_bs Z a = BSome [3; 3] /\ length (a_cells Z a) <= size [3; 3]) /\
-  snd (wstep (fst (wrun [] hist1)) (OCopy 1)) = XArr KU [3] [1004; 1005; 1006]%Z /\
-  snd (wstep (fst (wrun [] hist1)) (OCopy 0)) = XArr KU [3; 3] [1001; 1002; 1003; 0; 0; 0; 0; 0; 0]%Z /\
-  snd (wstep (fst (wrun [] hist1)) (OZip 71%Z 1 (OA 1))) = XArr KU [3] [404; 505; 606]%Z /\
-  (* a same-shape binary operation dispatched by object 0 clears the remembered shape *)
-  snd (wstep (fst (wstep (fst (wrun [] hist1)) (OBin BGen 50%Z (OA 0) (OA 0)))) (OUn 33%Z 0)) = XArr KU [3; 1] [33001; 33002; 33003]%Z.
-Proof.
-  vm_compute. split. { eexists. split; [reflexivity|]. split; reflexivity. }
-  split. { eexists. split; [reflexivity|]. split; [reflexivity|lia]. }
-  repeat split; reflexivity.
+  split; [vm_compute; repeat constructor|]. vm_compute. repeat split; reflexivity.
 Qed.
 
-(* non-vacuity of (4'): a history of same-shape and scalar operations on shared objects meets hist_no_bcast *)
-Example C16_history_independent_on_example :
-  hist_no_bcast Z 0%Z wun wbin wlbl []
-    [ONew KU [2; 1] [1; 2]%Z 0%Z; ONew KU [2; 1] [4; 5]%Z 0%Z; OBin BGen 50%Z (OA 0) (OA 1); OBin BCmp 62%Z (OS 7%Z) (OA 0);
-     OUn 33%Z 0; OZip 71%Z 2 (OA 0); OBin BAtan2 70%Z (OA 0) (OA 2); OCopy 0]
-  /\ snd (wstep (fst (wrun [] [ONew KU [2; 1] [1; 2]%Z 0%Z; ONew KU [2; 1] [4; 5]%Z 0%Z; OBin BGen 50%Z (OA 0) (OA 1)])) (OUn 33%Z 0))
-     = XArr KU [2; 1] [33001; 33002]%Z.
-Proof.
-  split; [|vm_compute; reflexivity].
-  simpl. repeat split; intros s0 c0 s1 c1 H0 H1; vm_compute in H0, H1; congruence.
-Qed.
-
-(* np.arctan2(ndarray_or_list, uarray): the uarray dispatches as SECOND input and the first input is
-   ignored -- every element is f(x, x); the lifting would give f(n, x) *)
-Theorem C16_arctan2_lift_refuted :
-  exists (h : heap Z) (x y : operand Z),
-    dispatcher Z h x y = Some 1 /\
-    snd (wstep h (OBin BAtan2 70%Z x y)) = XArr KU [3] [404; 505; 606]%Z /\
-    snd (wstep h (OBin BGen 70%Z x y)) = XArr KU [3] [704; 805; 906]%Z.
-Proof.
-  exists (fst (wrun [] [ONew KN [3] [7; 8; 9]%Z 0%Z; ONew KU [3] [4; 5; 6]%Z 0%Z])), (OA 0), (OA 1).
-  vm_compute. repeat split; reflexivity.
-Qed.
-Print Assumptions C16_arctan2_lift_refuted.
-
-(* np.arctan2 with shapes that need broadcasting raises AttributeError and leaves (3,3) behind;
-   with the uarray first and equal shapes it is the lifting *)
+(* non-vacuity of (2'): np.arctan2(ndarray, uarray) -- the uarray dispatches as SECOND input -- pairs the
+   first input with the second (it was f(x, x)); a scalar first input; and shapes (3,1) x (3,) give the
+   broadcast array (it raised AttributeError and left (3,3) behind on the dispatcher) *)
 Example C16_arctan2_example :
-  wstep (fst (wrun [] [ONew KU [3; 1] [1; 2; 3]%Z 0%Z; ONew KU [3] [4; 5; 6]%Z 0%Z])) (OBin BAtan2 70%Z (OA 0) (OA 1))
-  = ([mkArr Z KU [3; 1] [1; 2; 3]%Z (BSome [3; 3]) 0%Z false; mkArr Z KU [3] [4; 5; 6]%Z BNone 0%Z false], XExn AttributeError)
-  /\ snd (wstep (fst (wrun [] [ONew KU [3] [1; 2; 3]%Z 0%Z; ONew KN [3] [4; 5; 6]%Z 0%Z])) (OBin BAtan2 70%Z (OA 0) (OA 1)))
-     = XArr KU [3] [104; 205; 306]%Z
-  /\ snd (wstep (fst (wrun [] [ONew KU [3] [1; 2; 3]%Z 0%Z])) (OBin BAtan2 70%Z (OS 9%Z) (OA 0))) = XArr KU [3] [101; 202; 303]%Z.
+  (let h := fst (wrun [] [ONew KN [3] [7; 8; 9]%Z 0%Z; ONew KU [3] [4; 5; 6]%Z 0%Z]) in
+   dispatcher Z h (OA 0) (OA 1) = Some 1 /\
+   snd (wstep h (OBin BGen 70%Z (OA 0) (OA 1))) = XArr KU [3] [704; 805; 906]%Z) /\
+  snd (wstep (fst (wrun [] [ONew KU [3] [1; 2; 3]%Z 0%Z])) (OBin BGen 70%Z (OS 9%Z) (OA 0))) = XArr KU [3] [901; 902; 903]%Z /\
+  wstep (fst (wrun [] [ONew KU [3; 1] [1; 2; 3]%Z 0%Z; ONew KU [3] [4; 5; 6]%Z 0%Z])) (OBin BGen 70%Z (OA 0) (OA 1))
+  = ([mkArr Z KU [3; 1] [1; 2; 3]%Z BNone 0%Z; mkArr Z KU [3] [4; 5; 6]%Z BNone 0%Z;
+      mkArr Z KU [3; 3] [104; 105; 106; 204; 205; 206; 304; 305; 306]%Z BNone 0%Z],
+     XArr KU [3; 3] [104; 105; 106; 204; 205; 206; 304; 305; 306]%Z).
 Proof. vm_compute. repeat split; reflexivity. Qed.
 
-(* sensitivity / u_component / core.atan2 do not broadcast: a(2,1) with b(2,) is zipped in flat order
-   with a's shape (NumPy would give (2,2)); with a shorter second operand the tail is None *)
+(* non-vacuity of (6) *)
+Example C16_pickle_example :
+  let h := fst (wrun [] [ONew KU [2] [1; 2]%Z 5%Z; OPickle 0]) in
+  snd (wstep h (OUn 33%Z 0)) = XArr KU [2] [33001; 33002]%Z /\
+  snd (wstep h (OUn 33%Z 1)) = XArr KU [2] [33001; 33002]%Z /\
+  snd (wstep h (OLabel 0)) = XLbl 5%Z /\ snd (wstep h (OLabel 1)) = XLbl 0%Z.
+Proof. vm_compute. repeat split; reflexivity. Qed.
+
+(* STILL REFUTED (known finding C16-zip-no-broadcast): sensitivity / u_component / core.atan2 do not
+   broadcast: a(2,1) with b(2,) is zipped in flat order with a's shape (NumPy would give (2,2)); with a
+   shorter second operand the tail is None *)
 Theorem C16_zip_broadcast_refuted :
   exists (h : heap Z),
     bshape [2; 1] [2] = Some [2; 2] /\
@@ -338,15 +326,3 @@ Proof.
   exists (fst (wrun [] [ONew KU [2; 1] [1; 2]%Z 0%Z; ONew KU [2] [4; 5]%Z 0%Z])). vm_compute. repeat split; reflexivity.
 Qed.
 Print Assumptions C16_zip_broadcast_refuted.
-
-(* a pickle round trip loses _broadcasted_shape and _label: every view raises AttributeError until a
-   binary ufunc dispatched by the object sets the attribute; label stays unreadable *)
-Theorem C16_pickle_refuted :
-  let h := fst (wrun [] [ONew KU [2] [1; 2]%Z 5%Z; OPickle 0]) in
-  snd (wstep h (OUn 33%Z 0)) = XArr KU [2] [33001; 33002]%Z /\
-  snd (wstep h (OUn 33%Z 1)) = XExn AttributeError /\
-  snd (wstep (fst (wstep h (OBin BGen 50%Z (OA 1) (OA 1)))) (OUn 33%Z 1)) = XArr KU [2] [33001; 33002]%Z /\
-  snd (wstep (fst (wstep h (OBin BGen 50%Z (OA 1) (OA 1)))) (OLabel 1)) = XExn AttributeError /\
-  snd (wstep h (OLabel 0)) = XLbl 5%Z.
-Proof. vm_compute. repeat split; reflexivity. Qed.
-Print Assumptions C16_pickle_refuted.
